@@ -8,6 +8,172 @@ From LBZ Require Safe.SlideModel Safe.SlideProofs.
 Import ListNotations.
 Local Open Scope N_scope.
 
+(* ---- the stream: its first bits, DUMP ----------------------------------------------------------------------------- *)
+Lemma strm_front c q nx n : buf_is c q -> N.of_nat n <= c_w c ->
+  strm c nx = bits_msb n (q / 2 ^ (c_w c - N.of_nat n)) ++ skipn n (strm c nx).
+Proof.
+  intros Hq Hn. rewrite (strm_q c q nx Hq).
+  assert (E : bits_msb (N.to_nat (c_w c)) q =
+              bits_msb n (q / 2 ^ (c_w c - N.of_nat n)) ++ bits_msb (N.to_nat (c_w c) - n) q).
+  { replace (N.to_nat (c_w c)) with (n + (N.to_nat (c_w c) - n))%nat at 1 by lia. rewrite bits_msb_split.
+    do 3 f_equal. lia. }
+  rewrite E, <- app_assoc. rewrite skipn_app, bits_msb_length, Nat.sub_diag.
+  rewrite skipn_all2 by (rewrite bits_msb_length; lia). reflexivity.
+Qed.
+
+Lemma strm_skip c q kk c' nx : buf_is c q -> kk <= c_w c -> buf_is c' (q mod 2 ^ (c_w c - kk)) -> c_w c' = c_w c - kk ->
+  strm c' nx = skipn (N.to_nat kk) (strm c nx).
+Proof.
+  intros Hq Hk Hq' Ew. rewrite (strm_split c q kk c' nx Hq Hk Hq' Ew).
+  rewrite skipn_app, bits_msb_length, Nat.sub_diag. rewrite skipn_all2 by (rewrite bits_msb_length; lia). reflexivity.
+Qed.
+
+Lemma strm_same c c' nx : c_v c' = c_v c -> c_w c' = c_w c -> strm c' nx = strm c nx.
+Proof. intros Ev Ew. unfold strm, bufq. rewrite Ev, Ew. reflexivity. Qed.
+
+Lemma skipn_length_lt {A} n (l : list A) m : (length l < m)%nat -> (n <= length l)%nat -> (length (skipn n l) < m - n)%nat.
+Proof. intros H1 H2. rewrite skipn_length. lia. Qed.
+
+(* ---- the range test of retrieve() is window_apply ----------------------------------------------------------------- *)
+Lemma window_apply_C cur k : k < 64 ->
+  window_apply cur k =
+  if (cur + nth (N.to_nat k) Rmin_tab 0 <? delta_check_lo) || (delta_check_hi <? cur + nth (N.to_nat k) Rmax_tab 0) then None
+  else Some (cur + nth (N.to_nat k) delta_R 0 - delta_bias).
+Proof.
+  intro Hk. destruct (delta_entry k Hk) as (HL & Hmin & Hmax & Hhi). cbv zeta in HL, Hmin, Hmax, Hhi.
+  unfold window_apply.
+  change (tabRmin k) with (nth (N.to_nat k) Rmin_tab 0). change (tabRmax k) with (nth (N.to_nat k) Rmax_tab 0).
+  change (tabR k) with (nth (N.to_nat k) delta_R 0).
+  destruct ((cur + nth (N.to_nat k) Rmin_tab 0 <? delta_check_lo) || (delta_check_hi <? cur + nth (N.to_nat k) Rmax_tab 0)) eqn:E;
+    [reflexivity|].
+  assert (E2 : (cur + nth (N.to_nat k) delta_R 0 <? delta_check_lo) || (delta_check_hi <? cur + nth (N.to_nat k) delta_R 0) = false) by lia.
+  rewrite E2. reflexivity.
+Qed.
+
+(* one window of the delta reader on the stream of a state *)
+Lemma delta_step_run c q nx f cur : buf_is c q -> 6 <= c_w c -> (length (strm c nx) < f)%nat ->
+  run (win_delta f cur) (strm c nx) =
+  match window_apply cur (q / 2 ^ (c_w c - 6)) with
+  | None => Err ErrDelta
+  | Some cur' =>
+      if tabL (q / 2 ^ (c_w c - 6)) =? 6 then run (win_delta f cur') (skipn 6 (strm c nx))
+      else Ok (cur', skipn (N.to_nat (tabL (q / 2 ^ (c_w c - 6)))) (strm c nx))
+  end.
+Proof.
+  intros Hq Hw Hf. pose proof (strm_length c nx) as SL.
+  pose proof (peek_lt q (c_w c) 6 ltac:(apply Hq) Hw) as Hk. change (2 ^ 6) with 64 in Hk.
+  pose proof (strm_front c q nx 6 Hq ltac:(lia)) as SF. change (N.of_nat 6) with 6 in SF.
+  rewrite SF at 1. rewrite win_window by lia. rewrite <- SF.
+  destruct (window_apply cur _) as [cur'|]; [|reflexivity].
+  destruct (tabL _ =? 6); [|reflexivity].
+  unfold win_delta. apply mprog_fuel; rewrite skipn_length; lia.
+Qed.
+
+(* ---- residual programs, one step ---------------------------------------------------------------------------------- *)
+Lemma K_lens_step f h selm tables lens n' cur bits :
+  run (K_lens f h selm tables lens (S n') cur) bits =
+  match run (win_delta f cur) bits with
+  | Ok (l, r) => run (K_lens f h selm tables (lens ++ [l]) n' l) r
+  | Err e => Err e
+  end.
+Proof.
+  unfold K_lens. cbn [read_lens]. change (delta_reader lbz_policy) with win_delta. rewrite !run_bind.
+  destruct (run (win_delta f cur) bits) as [[l r]|e]; [|reflexivity].
+  rewrite !run_bind. destruct (run (read_lens lbz_policy f n' l) r) as [[ls r']|e]; [|reflexivity].
+  cbn [run]. rewrite <- app_assoc. reflexivity.
+Qed.
+
+Lemma K_lens_0 f h selm tables lens cur : K_lens f h selm tables lens 0 cur = K_tables f h selm (tables ++ [lens ++ []]).
+Proof. reflexivity. Qed.
+
+Lemma K_lens_window c q nx f h selm tables lens n' cur : buf_is c q -> 6 <= c_w c -> (length (strm c nx) < f)%nat ->
+  run (K_lens f h selm tables lens (S n') cur) (strm c nx) =
+  let k := q / 2 ^ (c_w c - 6) in
+  if (cur + nth (N.to_nat k) Rmin_tab 0 <? delta_check_lo) || (delta_check_hi <? cur + nth (N.to_nat k) Rmax_tab 0) then Err ErrDelta
+  else
+    let ncl := cur + nth (N.to_nat k) delta_R 0 - delta_bias in
+    if nth (N.to_nat k) delta_L 0 =? 6 then run (K_lens f h selm tables lens (S n') ncl) (skipn 6 (strm c nx))
+    else run (K_lens f h selm tables (lens ++ [ncl]) n' ncl) (skipn (N.to_nat (nth (N.to_nat k) delta_L 0)) (strm c nx)).
+Proof.
+  intros Hq Hw Hf. cbv zeta.
+  pose proof (peek_lt q (c_w c) 6 ltac:(apply Hq) Hw) as Hk. change (2 ^ 6) with 64 in Hk.
+  rewrite K_lens_step, (delta_step_run c q nx f cur Hq Hw Hf), (window_apply_C cur _ Hk).
+  destruct (_ || _); [reflexivity|].
+  change (tabL (q / 2 ^ (c_w c - 6))) with (nth (N.to_nat (q / 2 ^ (c_w c - 6))) delta_L 0).
+  destruct (_ =? 6); [|reflexivity].
+  rewrite K_lens_step. reflexivity.
+Qed.
+
+(* ---- frames ---------------------------------------------------------------------------------------------------------- *)
+Lemma R_hdr_frame c c' h flags : R_hdr c h flags -> J_hdr c' flags -> d_rand c' = d_rand c -> d_bwt_idx c' = d_bwt_idx c ->
+  r_num_trees c' = r_num_trees c -> r_num_selectors c' = r_num_selectors c -> R_hdr c' h flags.
+Proof. intros (_ & H1 & H2 & H3 & H4 & H5) HJ E1 E2 E3 E4. unfold R_hdr. rewrite E1, E2, E3, E4. auto 10. Qed.
+
+Lemma tabs_rel_frame c c' tables : tabs_rel c tables -> r_t c' = r_t c -> r_alpha_size c' = r_alpha_size c ->
+  r_mtf c' = r_mtf c -> r_tree c' = r_tree c -> tabs_rel c' tables.
+Proof. intros H E1 E2 E3 E4. unfold tabs_rel. rewrite E1, E2, E3, E4. exact H. Qed.
+
+Lemma R_hdr_alpha c h flags : R_hdr c h flags -> N.of_nat (h_alpha h) = r_alpha_size c.
+Proof. intros ((_ & _ & _ & _ & Ha & _) & Hu & _). unfold h_alpha. rewrite Hu, Ha. lia. Qed.
+
+Lemma firstn_upd_le n i x l : (n <= i)%nat -> firstn n (upd i x l) = firstn n l.
+Proof.
+  revert i l; induction n as [|n IH]; intros i l H; [reflexivity|].
+  destruct l as [|y r]; [destruct i; reflexivity|]. destruct i as [|i]; [lia|]. cbn [upd firstn]. rewrite IH by lia. reflexivity.
+Qed.
+
+Lemma firstn_S_upd i x l : (i < length l)%nat -> firstn (S i) (upd i x l) = firstn i l ++ [x].
+Proof.
+  intro H. rewrite firstn_S_nth by (rewrite upd_length; exact H). rewrite nth_upd_same by exact H.
+  rewrite firstn_upd_le by lia. reflexivity.
+Qed.
+
+
+(* the common tail of the three ways through the loop body, on the reading side *)
+Lemma ref_finish c h selm tables flags q kk j' cls' c0 lens' cur' f nx X :
+  J_delta c flags 31 -> buf_is c q -> 1 <= kk <= 6 -> 6 <= c_w c ->
+  length cls' = 258%nat -> j' <= r_alpha_size c ->
+  (forall i, i < j' -> 1 <= nth (N.to_nat i) cls' 0 <= 20) ->
+  (j' < r_alpha_size c -> 1 <= nth (N.to_nat j') cls' 0 <= 20) ->
+  c0 = set_r_code_len (set_r_j c j') cls' ->
+  R_hdr c h flags -> selm = firstn (N.to_nat (h_ns h)) (r_selector c) -> tabs_rel c tables ->
+  lens' = firstn (N.to_nat j') cls' ->
+  (j' < r_alpha_size c -> nth (N.to_nat j') cls' 0 = cur') ->
+  X = run (K_lens f h selm tables lens' (h_alpha h - length lens') cur') (skipn (N.to_nat kk) (strm c nx)) ->
+  match (c1 <== dump c0 kk ;; BNeed S_delta_tag c1) with
+  | BNeed S_delta_tag c' =>
+      exists lens', R_delta c' h selm tables lens' /\
+        X = run (K_lens f h selm tables lens' (h_alpha h - length lens') (cl c' (r_j c'))) (strm c' nx)
+  | BGo P_TREE c' => exists tables', R_tree c' h selm tables' /\ X = run (K_tables f h selm tables') (strm c' nx)
+  | BRet _ _ => exists e, X = Err e
+  | _ => True
+  end.
+Proof.
+  intros HJ Hb Hkk Hw Hl Hj Hlo Hcur Ec0 HR Hsel Htab Hlens Hcur' HX.
+  pose proof (delta_finish c flags q kk j' cls' c0 HJ Hb Hkk Hw Hl Hj Hlo Hcur Ec0) as DF.
+  pose proof (R_hdr_alpha c h flags HR) as Hha.
+  assert (Hal : r_alpha_size c <= 258) by (apply (J_hdr_alpha c flags), HJ).
+  assert (Hb0 : buf_is c0 q) by (apply (buf_is_frame c); [subst c0; dcore c; reflexivity..|exact Hb]).
+  assert (Ew0 : c_w c0 = c_w c) by (subst c0; dcore c; reflexivity).
+  destruct (dump_ok c0 q kk Hb0 ltac:(lia)) as (c' & E & Ec' & B').
+  rewrite E in DF |- *. cbn [bindB] in DF |- *. destruct DF as (DJ & _).
+  assert (Ew : c_w c' = c_w c0 - kk) by (subst c'; dcore c0; reflexivity).
+  assert (Ej : r_j c' = j') by (subst c' c0; dcore c; reflexivity).
+  assert (Ecl : r_code_len c' = cls') by (subst c' c0; dcore c; reflexivity).
+  exists lens'. split.
+  - exists flags. split; [exact DJ|]. split; [|split; [|split]].
+    + apply (R_hdr_frame c); [exact HR|apply DJ|subst c' c0; dcore c; reflexivity..].
+    + rewrite Hsel. f_equal. subst c' c0; dcore c; reflexivity.
+    + apply (tabs_rel_frame c); [exact Htab|subst c' c0; dcore c; reflexivity..].
+    + rewrite Ej, Ecl. exact Hlens.
+  - rewrite (strm_skip c0 q kk c' nx Hb0 ltac:(lia) B' Ew). rewrite (strm_same c c0) by (subst c0; dcore c; reflexivity).
+    rewrite HX. unfold cl. rewrite Ej, Ecl.
+    destruct (N.ltb_spec j' (r_alpha_size c)) as [Hlt|Hge].
+    + rewrite (Hcur' Hlt). reflexivity.
+    + assert (E0 : (h_alpha h - length lens' = 0)%nat) by (subst lens'; rewrite firstn_length; lia).
+      rewrite E0. reflexivity.
+Qed.
+
 (* the delta loop of one tree, from its head to the next NEED or to the next tree *)
 Lemma ref_delta c h selm tables lens f nx : R_deltaH c h selm tables lens -> buf_ok c -> 6 <= c_w c ->
   (length (strm c nx) < f)%nat ->
@@ -24,7 +190,197 @@ Lemma ref_delta c h selm tables lens f nx : R_deltaH c h selm tables lens -> buf
   | _ => True
   end.
 Proof.
-Abort.
+  intros (flags & HJ & HR & Hsel & Htab & Hlens) HB Hw Hf.
+  pose proof HB as (q & Hb).
+  pose proof HJ as (Hh & Hs & Ht & Htd & Hj & Hlo & Hcur).
+  pose proof (J_hdr_alpha c flags Hh) as Hal.
+  assert (Hsh : shape c) by apply Hh.
+  destruct Hsh as (Ssel & Scl & Smtf & Str & Swf & Ssl & Sft).
+  pose proof (R_hdr_alpha c h flags HR) as Hha.
+  assert (Llens : length lens = N.to_nat (r_j c)) by (subst lens; rewrite firstn_length; lia).
+  pose proof (strm_length c nx) as SL.
+  destruct (N.ltb_spec (r_j c) (r_alpha_size c)) as [Hlt|Hge].
+  - unfold delta_head. rewrite (proj2 (N.ltb_lt _ _) Hlt).
+    specialize (Hcur Hlt).
+    destruct (h_alpha h - length lens)%nat as [|n'] eqn:En; [lia|].
+    pose proof (K_lens_window c q nx f h selm tables lens n' (cl c (r_j c)) Hb Hw Hf) as KW. cbv zeta in KW.
+    rewrite (peek_ok c q 6 Hb ltac:(lia) Hw). cbn [bindB].
+    pose proof (peek_lt q (c_w c) 6 ltac:(apply Hb) Hw) as Hk. change (2 ^ 6) with 64 in Hk.
+    set (k := q / 2 ^ (c_w c - 6)) in *.
+    destruct delta_tabs_len as (LL & LR & Lmin & Lmax).
+    rewrite (xget_ok RCodeLen) by lia. cbn [bindB].
+    rewrite (xget_ok RConst Rmin_tab) by lia. cbn [bindB].
+    rewrite (xget_ok RConst Rmax_tab) by lia. cbn [bindB].
+    destruct (delta_entry k Hk) as (HL & Hmin & Hmax & Hhi). cbv zeta in HL, Hmin, Hmax, Hhi.
+    destruct delta_consts_ok as (Dlo & Dhi & Dbias).
+    fold (cl c (r_j c)).
+    set (rmin := nth (N.to_nat k) Rmin_tab 0) in *. set (rmax := nth (N.to_nat k) Rmax_tab 0) in *.
+    destruct ((cl c (r_j c) + rmin <? delta_check_lo) || (delta_check_hi <? cl c (r_j c) + rmax)) eqn:Etest.
+    { exists ErrDelta. exact KW. }
+    rewrite (xget_ok RConst delta_R) by lia. cbn [bindB].
+    set (r := nth (N.to_nat k) delta_R 0) in *.
+    rewrite mod8_delta by lia.
+    set (ncl := cl c (r_j c) + r - delta_bias) in *.
+    assert (Hncl : 1 <= ncl <= 20) by (unfold ncl; lia).
+    rewrite xset_ok by lia. cbn [bindB].
+    rewrite (xget_ok RConst delta_L) by lia. cbn [bindB].
+    set (kk := nth (N.to_nat k) delta_L 0) in *.
+    set (cls := upd (N.to_nat (r_j c)) ncl (r_code_len c)).
+    assert (Lcls : length cls = 258%nat) by (unfold cls; rewrite upd_length; exact Scl).
+    assert (Ncls_lo : forall i, i < r_j c -> nth (N.to_nat i) cls 0 = cl c i).
+    { intros i Hi. unfold cls. rewrite nth_upd_other by lia. reflexivity. }
+    assert (Ncls_j : nth (N.to_nat (r_j c)) cls 0 = ncl).
+    { unfold cls. rewrite nth_upd_same by lia. reflexivity. }
+    assert (Flens : firstn (N.to_nat (r_j c)) cls = lens).
+    { unfold cls. rewrite firstn_upd_le by lia. symmetry. exact Hlens. }
+    assert (Flens1 : firstn (N.to_nat (r_j c + 1)) cls = lens ++ [ncl]).
+    { replace (N.to_nat (r_j c + 1)) with (S (N.to_nat (r_j c))) by lia. unfold cls. rewrite firstn_S_upd by lia.
+      rewrite Hlens. reflexivity. }
+    replace (r_j (set_r_code_len c cls)) with (r_j c) by (dcore c; reflexivity).
+    destruct (N.eqb_spec kk 6) as [E6|N6]; cbn [negb].
+    + (* same symbol again *)
+      apply (ref_finish c h selm tables flags q kk (r_j c) cls _ lens ncl); try assumption; try lia.
+      * intros i Hi. rewrite Ncls_lo by exact Hi. apply Hlo; exact Hi.
+      * dcore c; reflexivity.
+      * symmetry; exact Flens.
+      * rewrite KW, En, E6. reflexivity.
+    + rewrite add32_small by (rewrite W32_val; lia).
+      replace (r_j (set_r_j (set_r_code_len c cls) (r_j c + 1))) with (r_j c + 1) by (dcore c; reflexivity).
+      replace (r_alpha_size (set_r_j (set_r_code_len c cls) (r_j c + 1))) with (r_alpha_size c) by (dcore c; reflexivity).
+      replace (r_code_len (set_r_j (set_r_code_len c cls) (r_j c + 1))) with cls by (dcore c; reflexivity).
+      assert (En1 : (h_alpha h - length (lens ++ [ncl]))%nat = n') by (rewrite app_length; cbn [length]; lia).
+      destruct (N.ltb_spec (r_j c + 1) (r_alpha_size c)) as [Hlt1|Hge1].
+      * rewrite sub32_small by (rewrite ?W32_val; lia).
+        rewrite xget_ok by lia. cbn [bindX]. rewrite xset_ok by lia. cbn [bindX].
+        replace (r_j c + 1 - 1) with (r_j c) by lia. rewrite Ncls_j.
+        apply (ref_finish c h selm tables flags q kk (r_j c + 1) (upd (N.to_nat (r_j c + 1)) ncl cls) _ (lens ++ [ncl]) ncl);
+          try assumption; try lia.
+        -- rewrite upd_length; exact Lcls.
+        -- intros i Hi. rewrite nth_upd_other by lia. destruct (N.eq_dec i (r_j c)) as [->|Hne].
+           ++ rewrite Ncls_j. exact Hncl.
+           ++ rewrite Ncls_lo by lia. apply Hlo; lia.
+        -- intros _. rewrite nth_upd_same by lia. exact Hncl.
+        -- dcore c; reflexivity.
+        -- rewrite firstn_upd_le by lia. symmetry; exact Flens1.
+        -- intros _. rewrite nth_upd_same by lia. reflexivity.
+        -- rewrite KW, En1. reflexivity.
+      * apply (ref_finish c h selm tables flags q kk (r_j c + 1) cls _ (lens ++ [ncl]) ncl); try assumption; try lia.
+        -- intros i Hi. destruct (N.eq_dec i (r_j c)) as [->|Hne].
+           ++ rewrite Ncls_j. exact Hncl.
+           ++ rewrite Ncls_lo by lia. apply Hlo; lia.
+        -- dcore c; reflexivity.
+        -- symmetry; exact Flens1.
+        -- rewrite KW, En1. reflexivity.
+  - assert (Ej : r_j c = r_alpha_size c) by lia.
+    pose proof (delta_head_ok' c flags HJ HB Hw) as DH.
+    set (t := r_t c) in *.
+    assert (Ht6 : t < 6) by (destruct Hh as (_ & _ & _ & _ & _ & Hnt & _); lia).
+    set (T := nth (N.to_nat t) (r_tree c) garbage_tree).
+    set (n := N.to_nat (r_alpha_size c)).
+    rewrite Ej in Hlens, Llens. fold n in Hlens, Llens.
+    set (pad := skipn n (r_code_len c)).
+    assert (ECL : lens ++ pad = r_code_len c) by (rewrite Hlens; apply firstn_skipn).
+    assert (Hpre : tree_pre lens pad T).
+    { unfold tree_pre. split; [lia|]. split; [|split].
+      - apply Forall_nth. intros i d Hi. rewrite (nth_indep _ d 0) by exact Hi. rewrite Hlens.
+        rewrite SlideProofs.nth_firstn_lt by lia.
+        specialize (Hlo (N.of_nat i) ltac:(lia)). unfold cl in Hlo. rewrite Nat2N.id in Hlo. exact Hlo.
+      - rewrite <- app_length. rewrite ECL, Scl. reflexivity.
+      - rewrite Forall_forall in Swf. apply Swf. apply nth_In. lia. }
+    destruct (make_tree_total lens pad T Hpre) as (vd & T' & EM & WF' & _).
+    assert (TR : tree_rel lens (verdict_code t vd) t T').
+    { exists pad, T, vd. split; [exact Hpre|]. split; [exact EM|reflexivity]. }
+    rewrite ECL in EM. replace (N.of_nat (length lens)) with (r_alpha_size c) in EM by lia.
+    assert (EQ : delta_head c = BGo P_TREE (set_r_t (set_r_mtf (set_r_tree c (updt (N.to_nat t) T' (r_tree c)))
+                                                         (upd (N.to_nat t) (verdict_code t vd) (r_mtf c))) (t + 1))).
+    { unfold delta_head. rewrite (proj2 (N.ltb_ge _ _) Hge). fold t.
+      rewrite (nth_error_nth' (r_tree c) garbage_tree) by lia. cbn [ofO bindB]. fold T.
+      rewrite EM. cbn [ofM bindB fst snd]. rewrite xset_ok by lia. cbn [bindB].
+      match goal with |- context [add32 (r_t ?X) 1] => replace (r_t X) with t by (subst t; dcore c; reflexivity) end.
+      rewrite add32_small by (rewrite W32_val; lia). reflexivity. }
+    rewrite EQ in DH |- *. destruct DH as ((DJ & DB & DW) & _).
+    set (c' := set_r_t _ _) in *.
+    assert (F1 : r_t c' = t + 1) by reflexivity.
+    assert (F2 : r_alpha_size c' = r_alpha_size c) by reflexivity.
+    assert (F3 : r_mtf c' = upd (N.to_nat t) (verdict_code t vd) (r_mtf c)) by reflexivity.
+    assert (F4 : r_tree c' = updt (N.to_nat t) T' (r_tree c)) by reflexivity.
+    exists (tables ++ [lens]). split.
+    + exists flags. split; [exact DJ|]. split; [|split].
+      * apply (R_hdr_frame c); [exact HR|apply DJ|reflexivity..].
+      * rewrite Hsel. reflexivity.
+      * destruct Htab as (Tl & Tr). unfold tabs_rel. rewrite F1, F2, F3, F4. split; [rewrite app_length; cbn [length]; lia|].
+        intros i Hi. destruct (N.eq_dec i t) as [->|Hne].
+        -- rewrite app_nth2 by lia. replace (N.to_nat t - length tables)%nat with 0%nat by lia. cbn [nth].
+           split; [lia|]. rewrite nth_upd_same, nth_updt_same by lia. exact TR.
+        -- rewrite app_nth1 by lia. rewrite nth_upd_other, nth_updt_other by lia. apply Tr. lia.
+    + replace (h_alpha h - length lens)%nat with 0%nat by lia. rewrite K_lens_0, app_nil_r.
+      rewrite (strm_same c c') by reflexivity. reflexivity.
+Qed.
+
+Lemma K_tables_step f h selm tables m bits : (N.to_nat (h_nt h) - length tables = S m)%nat ->
+  run (K_tables f h selm tables) bits =
+  match run (take 5) bits with
+  | Ok (start, r) => run (K_lens f h selm tables [] (h_alpha h) start) r
+  | Err e => Err e
+  end.
+Proof.
+  intro E. unfold K_lens, K_tables. rewrite E. cbn [repeat_prog]. unfold read_table. rewrite !run_bind.
+  destruct (run (take 5) bits) as [[s r]|e]; [|reflexivity].
+  rewrite !run_bind. destruct (run (read_lens lbz_policy f (h_alpha h) s) r) as [[ls r']|e]; [|reflexivity].
+  rewrite !run_bind.
+  replace (N.to_nat (h_nt h) - length (tables ++ [[] ++ ls]))%nat with m by (rewrite app_length; cbn [length app]; lia).
+  destruct (run (repeat_prog m _) r') as [[more r'']|e]; [|reflexivity].
+  cbn [run app]. rewrite <- app_assoc. reflexivity.
+Qed.
+
+Lemma K_tables_done f h selm tables : (N.to_nat (h_nt h) - length tables = 0)%nat ->
+  K_tables f h selm tables = K_group h selm (tables ++ []) 0 [].
+Proof. intro E. unfold K_tables. rewrite E. reflexivity. Qed.
+
+(* what init_groups changes *)
+Lemma init_groups_eq c flags : J_tree c flags -> r_t c = r_num_trees c ->
+  exists c', init_groups c = BGo P_GROUP c' /\
+    c_v c' = c_v c /\ c_w c' = c_w c /\ c_ttp c' = c_ttp c /\ c_tt c' = c_tt c /\
+    d_rand c' = d_rand c /\ d_bwt_idx c' = d_bwt_idx c /\ r_num_trees c' = r_num_trees c /\ r_alpha_size c' = r_alpha_size c /\
+    r_selector c' = r_selector c /\ r_num_selectors c' = N.min (r_num_selectors c) 18001 /\
+    r_mtf c' = r_mtf c /\ r_tree c' = r_tree c /\ r_g c' = 0 /\ r_run c' = 0 /\ r_shift c' = 0 /\
+    r_runChar c' = hd 0 (SlideModel.used_of flags).
+Proof.
+  intros (Hh & Hs & Ht & Htd) Et.
+  pose proof (J_hdr_alpha c flags Hh) as Hal.
+  pose proof Hh as (((Hsh & Htt0) & Hrand & Hidx) & Lfl & Hfill & Hu1 & Ealpha & Hnt & Hns).
+  destruct Hsh as (Ssel & Scl & Smtf & Str & Swf & Ssl & Sft).
+  destruct Hfill as (junk & Ljunk & EBF).
+  destruct (SlideProofs.bitmap_fill_spec flags CMAP_BASE 0 0 junk) as (a' & EBF' & _ & Hq & _).
+  { unfold SlideProofs.len. rewrite Ljunk, Lfl. change CMAP_BASE with 7936. lia. }
+  rewrite EBF in EBF'. injection EBF' as Ea'. subst a'.
+  fold (SlideModel.used_of flags) in Hq. specialize (Hq 0%nat ltac:(lia)).
+  replace (CMAP_BASE + 0 + N.of_nat 0) with CMAP_BASE in Hq by lia.
+  unfold init_groups. cbv zeta.
+  rewrite (SlideProofs.rd_ok (SlideModel.rows_init CMAP_BASE) 0) by (rewrite SlideProofs.rows_init_len; lia).
+  cbn [ofO bindB]. rewrite SlideProofs.rows_init_get by lia. replace (CMAP_BASE + 16 * 0) with CMAP_BASE by lia.
+  cbn [SlideModel.s_slide].
+  rewrite SlideProofs.rd_ok by (unfold SlideProofs.len; rewrite Ssl; change CMAP_BASE with 7936; lia).
+  cbn [ofO bindB].
+  eexists. split; [reflexivity|].
+  assert (Hx : SlideProofs.get (SlideModel.s_slide (r_slide c)) CMAP_BASE = hd 0 (SlideModel.used_of flags)).
+  { rewrite Hq. destruct (SlideModel.used_of flags); reflexivity. }
+  destruct (sel_clamp_test <? _) eqn:Ecl.
+  - repeat split; try reflexivity; [|exact Hx].
+    change sel_clamp_value with 18001. change sel_clamp_test with 18001 in Ecl.
+    match type of Ecl with (18001 <? ?X) = true => change X with (r_num_selectors c) in Ecl end.
+    match goal with |- r_num_selectors ?X = _ => change (r_num_selectors X) with 18001 end. lia.
+  - repeat split; try reflexivity; [|exact Hx].
+    change sel_clamp_test with 18001 in Ecl.
+    match type of Ecl with (18001 <? ?X) = false => change X with (r_num_selectors c) in Ecl end.
+    match goal with |- r_num_selectors ?X = _ => change (r_num_selectors X) with (r_num_selectors c) end. lia.
+Qed.
+
+Lemma nth_iota6 i : i < 6 -> nth (N.to_nat i) [0; 1; 2; 3; 4; 5] 0 = i.
+Proof.
+  intro H. assert (C : i = 0 \/ i = 1 \/ i = 2 \/ i = 3 \/ i = 4 \/ i = 5) by lia.
+  destruct C as [->|[->|[->|[->|[->| ->]]]]]; reflexivity.
+Qed.
 
 (* the head of the tree loop *)
 Lemma ref_tree c h selm tables f nx : R_tree c h selm tables -> buf_ok c -> 32 <= c_w c ->
@@ -41,7 +397,126 @@ Lemma ref_tree c h selm tables f nx : R_tree c h selm tables -> buf_ok c -> 32 <
   | _ => True
   end.
 Proof.
-Abort.
+  intros (flags & HJ & HR & Hsel & Htab) HB Hw Hf.
+  pose proof HB as (q & Hb). pose proof HJ as (Hh & Hs & Ht & Htd).
+  pose proof (J_hdr_alpha c flags Hh) as Hal.
+  assert (Hsh : shape c) by apply Hh.
+  destruct Hsh as (Ssel & Scl & Smtf & Str & Swf & Ssl & Sft).
+  pose proof (R_hdr_alpha c h flags HR) as Hha.
+  pose proof (strm_length c nx) as SL.
+  pose proof HR as (_ & Hused & Hrnd & Hidx & Hnt & Hns).
+  pose proof Htab as (Tl & Tr).
+  unfold tree_head.
+  destruct (N.ltb_spec (r_t c) (r_num_trees c)) as [Hlt|Hge].
+  - assert (Hb1 : buf_is (set_r_j c 0) q) by (apply (buf_is_frame c); [reflexivity..|exact Hb]).
+    assert (Ew1 : c_w (set_r_j c 0) = c_w c) by reflexivity.
+    destruct (take_ok (set_r_j c 0) q 5 Hb1 ltac:(lia) ltac:(lia)) as (Ep & Hx & Hd).
+    rewrite Ep. cbn [bindB]. rewrite Ew1 in *. change (2 ^ 5) with 32 in Hx.
+    set (x := q / 2 ^ (c_w c - 5)) in *.
+    replace (r_code_len (set_r_j c 0)) with (r_code_len c) by reflexivity.
+    rewrite xset_ok by lia. cbn [bindB].
+    rewrite (N.mod_small x) by (change W8 with 256; lia).
+    destruct (Hd (set_r_code_len (set_r_j c 0) (upd (N.to_nat 0) x (r_code_len c)))
+                ltac:(reflexivity) ltac:(reflexivity)) as (c2 & E2 & Ec2 & B2).
+    rewrite E2. cbn [bindB].
+    assert (Ew2 : c_w c2 = c_w c - 5) by (subst c2; reflexivity).
+    assert (HJ2 : J_delta c2 flags 31).
+    { clear Hb Hb1 Ep Hd E2 B2 Ew2 Ew1 SL Hf. subst c2. dcore c. unfold J_delta, sels_ok, sel, trees_done, cl in *. rsa.
+      split; [|split; [exact Hs|split; [exact Hlt|split; [exact Htd|split; [lia|split; [intros i Hi; lia|]]]]]].
+      - eapply J_hdr_frame; [exact Hh|rsa; try reflexivity..]; [apply upd_length|exact Swf].
+      - intros _. change (N.to_nat 0) with 0%nat. rewrite nth_upd_same by lia. lia. }
+    assert (RD : R_deltaH c2 h selm tables []).
+    { exists flags. split; [exact HJ2|]. split; [|split; [|split]].
+      - apply (R_hdr_frame c); [exact HR|apply HJ2|subst c2; reflexivity..].
+      - rewrite Hsel. subst c2. reflexivity.
+      - apply (tabs_rel_frame c); [exact Htab|subst c2; reflexivity..].
+      - subst c2. reflexivity. }
+    assert (Hf2 : (length (strm c2 nx) < f)%nat).
+    { pose proof (strm_length c2 nx) as SL2. lia. }
+    pose proof (ref_delta c2 h selm tables [] f nx RD (ex_intro _ _ B2) ltac:(lia) Hf2) as R.
+    cbn [length] in R. rewrite Nat.sub_0_r in R.
+    assert (Ecl : cl c2 (r_j c2) = x).
+    { subst c2. unfold cl. cbn [r_j r_code_len]. change (N.to_nat 0) with 0%nat. apply nth_upd_same. lia. }
+    rewrite Ecl in R.
+    destruct (N.to_nat (h_nt h) - length tables)%nat as [|m] eqn:Em; [lia|].
+    rewrite (K_tables_step f h selm tables m _ Em). change (take 5) with (take (N.to_nat 5)).
+    rewrite (strm_take c q 5 c2 nx Hb ltac:(lia) B2 Ew2). fold x.
+    pose proof (delta_head_ok' c2 flags HJ2 (ex_intro _ _ B2) ltac:(lia)) as R0.
+    destruct (delta_head c2) as [[[]| |] c'|[] c'| | |]; try exact R; try exact I; exfalso; exact R0.
+  - destruct (init_groups_ok c flags HJ ltac:(lia) HB) as (c' & E & JG & _ & _).
+    destruct (init_groups_eq c flags HJ ltac:(lia)) as (c'' & E' & Fv & Fw & Fttp & Ftt & Frand & Fidx & Fnt & Fal & Fsel & Fns &
+                                                        Fmtf & Ftree & Fg & Frun & Fsh & Frc).
+    rewrite E in E'. injection E' as <-. rewrite E.
+    assert (Et : r_t c = r_num_trees c) by lia.
+    assert (Hcl : sel_clamp lbz_policy = 18001) by reflexivity.
+    pose proof Hh as (((_ & Http & Htt) & _) & _ & _ & _ & _ & Hnt26 & Hns15).
+    change (2 ^ 15) with 32768 in Hns15.
+    assert (Lselm : length selm = N.to_nat (h_ns h)) by (rewrite Hsel, firstn_length; lia).
+    split.
+    + exists (SlideModel.used_of flags). split; [exact JG|]. split; [|split; [lia|]].
+      * unfold G_static. rewrite Frand, Fidx, Fnt, Fal, Fns, Fsel, Fmtf, Ftree, Hcl.
+        split; [exact Hrnd|]. split; [exact Hidx|]. split; [exact Hnt|]. split; [lia|]. split; [exact Lselm|].
+        split; [|split; [lia|split; [|split; [lia|]]]].
+        -- apply Forall_nth. intros i d Hi. rewrite (nth_indep _ d 0) by exact Hi. rewrite Hsel.
+           rewrite SlideProofs.nth_firstn_lt by lia. rewrite <- Hnt.
+           specialize (Hs (N.of_nat i) ltac:(lia)). unfold sel in Hs. rewrite Nat2N.id in Hs. exact Hs.
+        -- unfold clamped. rewrite Hcl, Hsel, firstn_firstn. f_equal. lia.
+        -- intros i Hi. cbn [firstn]. unfold sel_order. cbn [fold_left]. cbv zeta. rewrite nth_iota6 by lia.
+           destruct (Tr i ltac:(lia)) as (T1 & T2). cbv zeta in T1, T2. split; [exact Hi|]. split; [lia|exact T2].
+      * exists 0, 0, 0, []. cbn [usteps]. rewrite Frun, Fsh, Fttp, Ftt, Frc, Hused.
+        repeat split; try reflexivity; try assumption. rewrite Htt. reflexivity.
+    + rewrite (K_tables_done f h selm tables) by lia. rewrite app_nil_r. rewrite (strm_same c c' nx Fv Fw). reflexivity.
+Qed.
+
+(* ---- one unary coded selector against sel_table[PEEK(6)] ---------------------------------------------------------- *)
+Definition unary_at (nt : N) (rest : list bool) (x : N) : Prop :=
+  run (read_unary (N.to_nat nt) 0) (bits_msb 6 x ++ rest) =
+  let k := nth (N.to_nat x) sel_table 0 in
+  if nt <? k then Err ErrSelector else Ok (k - 1, skipn (N.to_nat k) (bits_msb 6 x ++ rest)).
+
+Lemma unary_all nt rest : 2 <= nt <= 6 -> forall n, (n < 64)%nat -> unary_at nt rest (N.of_nat n).
+Proof.
+  intros Hnt n Hn. assert (C : nt = 2 \/ nt = 3 \/ nt = 4 \/ nt = 5 \/ nt = 6) by lia.
+  destruct C as [->|[->|[->|[->| ->]]]].
+  all: do 64 (destruct n as [|n]; [cbv; reflexivity|]); lia.
+Qed.
+
+Lemma unary_window nt x rest : 2 <= nt <= 6 -> x < 64 ->
+  run (read_unary (N.to_nat nt) 0) (bits_msb 6 x ++ rest) =
+  let k := nth (N.to_nat x) sel_table 0 in
+  if nt <? k then Err ErrSelector else Ok (k - 1, skipn (N.to_nat k) (bits_msb 6 x ++ rest)).
+Proof.
+  intros Hnt Hx. pose proof (unary_all nt rest Hnt (N.to_nat x) ltac:(lia)) as H. rewrite N2Nat.id in H. exact H.
+Qed.
+
+Lemma unary_step_run c q nx nt : buf_is c q -> 6 <= c_w c -> 2 <= nt <= 6 ->
+  run (read_unary (N.to_nat nt) 0) (strm c nx) =
+  let k := nth (N.to_nat (q / 2 ^ (c_w c - 6))) sel_table 0 in
+  if nt <? k then Err ErrSelector else Ok (k - 1, skipn (N.to_nat k) (strm c nx)).
+Proof.
+  intros Hq Hw Hnt.
+  pose proof (peek_lt q (c_w c) 6 ltac:(apply Hq) Hw) as Hk. change (2 ^ 6) with 64 in Hk.
+  pose proof (strm_front c q nx 6 Hq ltac:(lia)) as SF. change (N.of_nat 6) with 6 in SF.
+  rewrite SF at 1. rewrite unary_window by assumption. rewrite <- SF. reflexivity.
+Qed.
+
+Lemma K_sels_step f h selm m bits : (N.to_nat (h_ns h) - length selm = S m)%nat ->
+  run (K_sels f h selm) bits =
+  match run (read_unary (N.to_nat (h_nt h)) 0) bits with
+  | Ok (s, r) => run (K_sels f h (selm ++ [s])) r
+  | Err e => Err e
+  end.
+Proof.
+  intro E. unfold K_sels. rewrite E. cbn [repeat_prog]. rewrite !run_bind.
+  destruct (run (read_unary (N.to_nat (h_nt h)) 0) bits) as [[s r]|e]; [|reflexivity].
+  rewrite !run_bind.
+  replace (N.to_nat (h_ns h) - length (selm ++ [s]))%nat with m by (rewrite app_length; cbn [length]; lia).
+  destruct (run (repeat_prog m _) r) as [[more r']|e]; [|reflexivity].
+  cbn [run]. rewrite <- app_assoc. reflexivity.
+Qed.
+
+Lemma K_sels_done f h selm : (N.to_nat (h_ns h) - length selm = 0)%nat -> K_sels f h selm = K_tables f h (selm ++ []) [].
+Proof. intro E. unfold K_sels. rewrite E. reflexivity. Qed.
 
 (* the head of the selector loop *)
 Lemma ref_sel c h selm f nx : R_selH c h selm -> buf_ok c -> 6 <= c_w c -> (r_j c = r_num_selectors c -> 32 <= c_w c) ->
@@ -57,4 +532,66 @@ Lemma ref_sel c h selm f nx : R_selH c h selm -> buf_ok c -> 6 <= c_w c -> (r_j 
   | _ => True
   end.
 Proof.
-Abort.
+  intros (flags & HJ & HR & Hselm) HB Hw Hw32 Hf.
+  pose proof HB as (q & Hb). pose proof HJ as (Hh & Hj & Hs).
+  pose proof Hh as (((Hsh & Htt0) & Hrand & Hidx) & Lfl & Hfill & Hu1 & Ealpha & Hnt & Hns).
+  destruct Hsh as (Ssel & Scl & Smtf & Str & Swf & Ssl & Sft).
+  change (2 ^ 15) with 32768 in Hns.
+  pose proof HR as (_ & Hused & Hrnd' & Hidx' & Hnt' & Hns').
+  assert (Lselm : length selm = N.to_nat (r_j c)) by (rewrite Hselm, firstn_length; lia).
+  unfold sel_head.
+  destruct (N.ltb_spec (r_j c) (r_num_selectors c)) as [Hlt|Hge].
+  - destruct (N.to_nat (h_ns h) - length selm)%nat as [|m] eqn:Em; [lia|].
+    pose proof (K_sels_step f h selm m (strm c nx) Em) as KS.
+    rewrite (unary_step_run c q nx (h_nt h) Hb Hw ltac:(lia)) in KS. cbv zeta in KS. rewrite <- Hnt' in KS.
+    rewrite (peek_ok c q 6 Hb ltac:(lia) Hw). cbn [bindB].
+    pose proof (peek_lt q (c_w c) 6 ltac:(apply Hb) Hw) as Hx. change (2 ^ 6) with 64 in Hx.
+    set (x := q / 2 ^ (c_w c - 6)) in *.
+    rewrite (xget_ok RConst sel_table) by (rewrite sel_table_len; lia). cbn [bindB].
+    pose proof (sel_table_range x Hx) as Hk. set (k := nth (N.to_nat x) sel_table 0) in *.
+    destruct (N.ltb_spec (r_num_trees c) k) as [Hbad|Hok].
+    { exists ErrSelector. exact KS. }
+    rewrite sub32_small by (rewrite ?W32_val; lia). rewrite N.mod_small by (change W8 with 256; lia).
+    rewrite xset_ok by lia. cbn [bindB].
+    set (c0 := set_r_selector c (upd (N.to_nat (r_j c)) (k - 1) (r_selector c))).
+    assert (Hb0 : buf_is c0 q) by (apply (buf_is_frame c); [reflexivity..|exact Hb]).
+    destruct (dump_ok c0 q k Hb0 ltac:(change (c_w c0) with (c_w c); lia)) as (c' & E & Ec' & B').
+    rewrite E. cbn [bindB]. change (c_w c0) with (c_w c) in *.
+    assert (Ew : c_w c' = c_w c - k) by (subst c'; reflexivity).
+    assert (HJ' : J_selN c' flags).
+    { clear B' E Ew Hb Hb0 Hw32 KS Hf. subst c' c0. dcore c. unfold J_selN, sels_ok, sel in *. rsa.
+      split; [|split; [exact Hlt|]].
+      + eapply J_hdr_frame; [exact Hh|rsa; try reflexivity..]; [apply upd_length|exact Swf].
+      + intros i Hi. destruct (N.eq_dec i xj) as [->|Hne].
+        * rewrite nth_upd_same by lia. lia.
+        * rewrite nth_upd_other by lia. apply Hs. lia. }
+    exists (selm ++ [k - 1]). split.
+    + exists flags. split; [exact HJ'|]. split.
+      * apply (R_hdr_frame c); [exact HR|apply HJ'|subst c' c0; reflexivity..].
+      * replace (r_j c') with (r_j c) by (subst c' c0; reflexivity).
+        replace (r_selector c') with (upd (N.to_nat (r_j c)) (k - 1) (r_selector c)) by (subst c' c0; reflexivity).
+        replace (N.to_nat (r_j c) + 1)%nat with (S (N.to_nat (r_j c))) by lia.
+        rewrite firstn_S_upd by lia. rewrite Hselm. reflexivity.
+    + rewrite KS. rewrite (strm_skip c0 q k c' nx Hb0 ltac:(change (c_w c0) with (c_w c); lia) B' Ew).
+      rewrite (strm_same c c0 nx) by reflexivity. reflexivity.
+  - assert (Ej : r_j c = r_num_selectors c) by lia. specialize (Hw32 Ej).
+    assert (HJ0 : J_tree (set_r_t c 0) flags).
+    { clear Hb Hf. dcore c. unfold J_tree, sels_ok, sel, trees_done in *. rsa.
+      split; [|split; [intros i Hi; apply Hs; lia|split; [lia|intros i Hi; lia]]].
+      eapply J_hdr_frame; [exact Hh|rsa; try reflexivity..]. exact Swf. }
+    assert (HB0 : buf_ok (set_r_t c 0)) by (exists q; apply (buf_is_frame c); [reflexivity..|exact Hb]).
+    assert (RT : R_tree (set_r_t c 0) h selm []).
+    { exists flags. split; [exact HJ0|]. split; [|split].
+      - apply (R_hdr_frame c); [exact HR|apply HJ0|reflexivity..].
+      - rewrite Hselm, Ej, Hns'. reflexivity.
+      - split; [reflexivity|]. intros i Hi. change (r_t (set_r_t c 0)) with 0 in Hi. lia. }
+    pose proof (ref_tree (set_r_t c 0) h selm [] f nx RT HB0 Hw32) as R.
+    rewrite (strm_same c (set_r_t c 0) nx) in R by reflexivity. specialize (R Hf).
+    rewrite (K_sels_done f h selm) by lia. rewrite app_nil_r.
+    pose proof (tree_head_ok' (set_r_t c 0) flags HJ0 HB0 Hw32) as R0.
+    destruct (tree_head (set_r_t c 0)) as [[[]| |] c'|[] c'| | |]; try exact R; try exact I; exfalso; exact R0.
+Qed.
+
+Print Assumptions ref_delta.
+Print Assumptions ref_tree.
+Print Assumptions ref_sel.
